@@ -28,6 +28,16 @@ CLAIMED = {
         "6 C14",
         TECH,
     ),
+    "C17": (
+        "Bounded solver-based check of Sweep/MultiSweep/count_sweep against a list-comprehension definition: <= 3 keys (4 in the thorough tier), "
+        "every partition of the keys into dims groups (and dims=None, reversed orders), list lengths 0..3 symbolic, elements / constants / "
+        "deriver inputs unbounded symbolic ints, optional constants, derivers, exclude; product of 2 and 3 sweeps, + / MultiSweep, "
+        "filtered_sweep, count_sweep. Three recorded findings are pinned to their isolating members (KNOWN-FINDING).",
+        "Trusted: z3, CrossHair path exhaustion and builtin models. List lengths are realised (case split). Outside: > 4 keys, lists longer than 3, "
+        "unhashable values, use_pandas, set_cache_for_sweep.",
+        "6 C17",
+        TECH,
+    ),
 }
 
 NOT_APPLICABLE = {
